@@ -177,8 +177,13 @@ def run_history(rng, version, flavour, steps, *, profile=None, calls=True, persi
     tcp = not mqtt and not real_link and rng.random() < 0.5        # the TCP gateway classes instead of the base classes
     gen = Gen(rng, version, profile)
     react_fw = rng.choice(gen.fws) if (not no_callback and rng.random() < 0.25) else None
+    # an application that answers reports with commands from inside its event callback (drawn independently of react_fw)
+    react_set = None
+    if not no_callback and rng.random() < 0.3:
+        t2 = gen.t()
+        react_set = [t2, rng.choice([gen.val(t2), gen.val(t2), 1, 57]), gen.ack()]
     drv = Driver(version, flavour, interner, persistence_file=persist, raising_cb=raising_cb, mqtt=mqtt, no_callback=no_callback,
-                 spelling=rng.choice(SPELLINGS[version]), real_link=real_link, tcp=tcp, react_fw=react_fw)
+                 spelling=rng.choice(SPELLINGS[version]), real_link=real_link, tcp=tcp, react_fw=react_fw, react_set=react_set)
     gen.extra_text = LONE_SURROGATE if surrogate else None
     gen.ota_nodes = []
     gen.pending = []
